@@ -830,6 +830,43 @@ fn sink_main(plan: &J, hist: History) {
     drop(j);
 }
 
+/// One stream: every appended entry exactly once, per-producer order, no panicking append.
+fn check_one_stream(h: &[Ev], stream: u32) -> Option<Violation> {
+    let mut appended: Vec<u64> = vec![];
+    for e in h {
+        if let K::AppendEnd { id, panicked, .. } = &e.k {
+            if *panicked {
+                return Some(Violation::new("append_panicked", format!("append of entry {}#{} panicked", id_thread(*id), id_seq(*id))));
+            }
+            appended.push(*id);
+        }
+    }
+    let mut seen: BTreeMap<u64, u32> = BTreeMap::new();
+    let mut last: BTreeMap<u64, u64> = BTreeMap::new();
+    for e in h {
+        if let K::NextBegin { stream: s, id: Some(id), report: false } = &e.k {
+            if *s != stream {
+                continue;
+            }
+            *seen.entry(*id).or_insert(0) += 1;
+            if let Some(p) = last.get(&id_thread(*id)) {
+                if *p > id_seq(*id) {
+                    return Some(Violation::new("stream_order_broken", format!("stream {stream} received entries of producer {} out of order", id_thread(*id))));
+                }
+            }
+            last.insert(id_thread(*id), id_seq(*id));
+        }
+    }
+    for id in &appended {
+        match seen.get(id).copied().unwrap_or(0) {
+            1 => {}
+            0 => return Some(Violation::new("tee_branch_missed_entry", format!("entry p{}#{} was appended but stream {stream} never received it (errors of earlier entries or of the other stream must not matter)", id_thread(*id), id_seq(*id)))),
+            n => return Some(Violation::new("entry_duplicated", format!("entry p{}#{} was handed to stream {stream} {n} times", id_thread(*id), id_seq(*id)))),
+        }
+    }
+    None
+}
+
 fn check_sink_faults(plan: &J, h: &[Ev]) -> Option<Violation> {
     let _ = plan;
     // per stream: every appended entry exactly once, per-thread order
@@ -963,6 +1000,246 @@ impl Scenario for SinkFaults {
     }
     fn rule(&self) -> &'static str {
         "each run: sink kind in {FlushImmediately, boxed FlushImmediately, BackgroundQueue} over a tee of two recording streams with independent per-entry Ok/Validation/Io scripts and flush errors, 1-3 appending threads x 1-8 entries; oracle: each stream receives every appended entry exactly once in per-producer order, append never panics. non-trivial = >= 2 threads and >= 1 preemption; distinct = distinct (context-switch signature, scripts)"
+    }
+}
+
+// ------------------------------------------------------------------------------------------
+// C16 (c): end to end -- sink -> tee(real Emf -> fault-scripted writer, recording stream)
+// ------------------------------------------------------------------------------------------
+
+/// An id-carrying entry with a fixed timestamp (so that its EMF record is a pure function of the id).
+pub struct TsEntry(pub u64);
+impl Entry for TsEntry {
+    fn write<'a>(&'a self, w: &mut impl EntryWriter<'a>) {
+        w.timestamp(std::time::UNIX_EPOCH + Duration::from_millis(1_700_000_000_000 + (self.0 & 0xFFFF)));
+        w.value("id", &self.0);
+        w.value("Operation", "Get");
+    }
+}
+
+/// `.1`: a scheduling point per write call (only under the queue: FlushImmediately holds a
+/// plain std Mutex across `stream.next`, and a thread descheduled inside it would wedge the others)
+#[derive(Clone)]
+pub struct SharedW(pub Arc<Mutex<FaultyWriter>>, pub bool);
+impl io::Write for SharedW {
+    fn write(&mut self, buf: &[u8]) -> io::Result<usize> {
+        if self.1 {
+            detsim::yield_point();
+        }
+        self.0.lock().unwrap().write(buf)
+    }
+    fn write_vectored(&mut self, bufs: &[io::IoSlice<'_>]) -> io::Result<usize> {
+        if self.1 {
+            detsim::yield_point();
+        }
+        self.0.lock().unwrap().write_vectored(bufs)
+    }
+    fn flush(&mut self) -> io::Result<()> {
+        self.0.lock().unwrap().flush()
+    }
+}
+
+fn pipeline_emf() -> Emf {
+    Emf::builder("Pipe".to_string(), vec![vec![], vec!["Operation".to_string()]]).build()
+}
+
+fn pipeline_main(plan: &J, hist: History, w: Arc<Mutex<FaultyWriter>>) {
+    let nthreads = ju(plan, "threads", 1).max(1);
+    let per = ju(plan, "per_thread", 4);
+    let (mut rec, _ctl) = RecStream::new(1, hist.clone(), -1);
+    let queue = js(plan, "kind", "queue") == "queue";
+    rec.yields = queue;
+    let stream = pipeline_emf().output_to(SharedW(w, queue)).tee(rec);
+    enum H {
+        Imm(Arc<metrique_writer::BoxEntrySink>),
+        Queue(metrique_writer::sink::BackgroundQueue<TsEntry>, Option<metrique_writer::sink::BackgroundQueueJoinHandle>),
+    }
+    let h = if queue {
+        let (q, j) = metrique_writer::sink::BackgroundQueueBuilder::new()
+            .capacity(1024)
+            .thread_name("bgq")
+            .flush_interval(Duration::from_nanos(ju(plan, "flush_interval_ns", 1_000_000).max(1000)))
+            .shutdown_timeout(Duration::from_secs(1_000_000))
+            .build::<TsEntry>(stream);
+        H::Queue(q, Some(j))
+    } else {
+        H::Imm(Arc::new(FlushImmediately::new_boxed(stream)))
+    };
+    let mut ts = vec![];
+    for t in 0..nthreads {
+        let hist = hist.clone();
+        enum C {
+            Imm(Arc<metrique_writer::BoxEntrySink>),
+            Queue(metrique_writer::sink::BackgroundQueue<TsEntry>),
+        }
+        let c = match &h {
+            H::Imm(s) => C::Imm(s.clone()),
+            H::Queue(q, _) => C::Queue(q.clone()),
+        };
+        ts.push(detsim::thread::spawn_named(&format!("p{}", t + 1), move || {
+            for s in 0..per {
+                let id = entry_id(t + 1, s);
+                hist.log(K::AppendBegin { id });
+                let r = std::panic::catch_unwind(std::panic::AssertUnwindSafe(|| match &c {
+                    C::Imm(s) => s.append_any(TsEntry(id)),
+                    C::Queue(q) => q.append(TsEntry(id)),
+                }));
+                hist.log(K::AppendEnd { id, blocked: false, panicked: r.is_err() });
+                detsim::yield_point();
+            }
+        }));
+    }
+    for t in ts {
+        let _ = t.join();
+    }
+    if let H::Queue(q, j) = h {
+        drop(j);
+        drop(q);
+    }
+}
+
+/// Can `got` be read as: for each entry in order, either its complete record, or -- at most
+/// `torn_left` times -- a (possibly empty) proper prefix of it?
+fn parses(got: &[u8], recs: &[Vec<u8>], i: usize, pos: usize, torn_left: usize, memo: &mut std::collections::HashSet<(usize, usize, usize)>) -> bool {
+    if i == recs.len() {
+        return pos == got.len();
+    }
+    if !memo.insert((i, pos, torn_left)) {
+        return false;
+    }
+    let rest = &got[pos..];
+    let e = &recs[i];
+    if rest.starts_with(e) && parses(got, recs, i + 1, pos + e.len(), torn_left, memo) {
+        return true;
+    }
+    if torn_left > 0 {
+        let lcp = rest.iter().zip(e.iter()).take_while(|(a, b)| a == b).count().min(e.len().saturating_sub(1));
+        for p in (0..=lcp).rev() {
+            if parses(got, recs, i + 1, pos + p, torn_left - 1, memo) {
+                return true;
+            }
+        }
+    }
+    false
+}
+
+pub struct Pipeline;
+
+impl Scenario for Pipeline {
+    fn name(&self) -> &'static str {
+        "pipeline"
+    }
+    fn property(&self) -> &'static str {
+        "C16"
+    }
+    fn weight(&self, _t: Tier) -> u32 {
+        2
+    }
+    fn generate(&self, rng: &mut Rng, _tier: Tier) -> J {
+        let threads = 1 + rng.below(3);
+        let per = 1 + rng.below(7);
+        let mut faults = vec![];
+        for _ in 0..rng.below(5) {
+            let at = rng.below(12 * threads * per + 4);
+            faults.push(match rng.below(5) {
+                0 => json!({"at": at, "f": "hard", "kind": rng.below(3)}),
+                1 => json!({"at": at, "f": "zero"}),
+                2 => json!({"at": at, "f": "short", "k": 1 + rng.below(40)}),
+                _ => json!({"at": at, "f": "intr"}),
+            });
+        }
+        let sched = gen_sched(rng, &SchedOpts { est_choices: 300, threads: threads + 1, jump_max_ns: 5_000_000_000, stall_clock_max_ns: 1_000_000_000, max_steps: 120_000 });
+        json!({
+            "sched": sched, "kind": *rng.pick(&["queue", "queue", "immediate"]), "threads": threads, "per_thread": per,
+            "chunk": *rng.pick(&[0u64, 0, 1, 5, 64]), "vectored": rng.chance(0.7), "faults": faults,
+            "flush_interval_ns": *rng.pick(&[50_000u64, 5_000_000, 1_000_000_000]),
+        })
+    }
+    fn run(&self, plan: &J) -> Report {
+        let sched = sched_from_plan(plan);
+        detsim::hash::set_run_seed(sched.seed);
+        let hist = History::new();
+        let mut fw = FaultyWriter::perfect();
+        fw.chunk = ju(plan, "chunk", 0) as usize;
+        fw.vectored = jb(plan, "vectored", true);
+        fw.call_budget = 2_000_000;
+        for f in ja(plan, "faults") {
+            let at = ju(f, "at", 0) as usize;
+            let wf = match js(f, "f", "") {
+                "hard" => WFault::Hard(HARD_KINDS[ju(f, "kind", 0) as usize % HARD_KINDS.len()]),
+                "zero" => WFault::Zero,
+                "short" => WFault::Short(ju(f, "k", 1) as usize),
+                _ => WFault::Interrupted,
+            };
+            fw.at_call.insert(at, wf);
+        }
+        let w = Arc::new(Mutex::new(fw));
+        let (h2, p2, w2) = (hist.clone(), plan.clone(), w.clone());
+        let (out, _) = detsim::run(sched, move || pipeline_main(&p2, h2, w2));
+        let h = hist.snapshot();
+        let mut r = Report::default();
+        r.nontrivial = out.threads >= 2 && out.preemptions >= 1;
+        r.case_sig = mix(out.sig, hash_value(&json!([plan.get("kind"), plan.get("faults"), plan.get("threads"), plan.get("per_thread"), plan.get("chunk")])));
+        let failure = out.failure.clone();
+        let mp = out.main_panic.clone();
+        absorb_outcome(&mut r, out);
+        let fw = w.lock().unwrap();
+        for (k, v) in &fw.fired {
+            r.fault(k, *v);
+        }
+        r.probe(&format!("pipeline_{}", js(plan, "kind", "queue")), 1);
+        r.states = vec![mix(detsim::rng::hash_str(js(plan, "kind", "")), (fw.fired.len() as u64) << 8 | (h.len() as u64 / 8).min(32))];
+        // the recording leg of the tee: every appended entry once, in per-producer order
+        r.violation = check_one_stream(&h, 1);
+        if r.violation.is_none() && failure.is_none() {
+            // the bytes: in the order the entries went through the tee, each entry's complete
+            // record, or a proper prefix of it for at most as many entries as hard / zero-length
+            // faults fired
+            let order: Vec<u64> = h.iter().filter_map(|e| if let K::NextBegin { stream: 1, id: Some(id), report: false } = &e.k { Some(*id) } else { None }).collect();
+            let mut reference = pipeline_emf();
+            let recs: Vec<Vec<u8>> = order
+                .iter()
+                .map(|id| {
+                    let mut pw = FaultyWriter::perfect();
+                    let _ = reference.format(&TsEntry(*id), &mut pw);
+                    pw.received
+                })
+                .collect();
+            let torn = (fw.fired.get("writer_hard_err").copied().unwrap_or(0) + fw.fired.get("writer_zero").copied().unwrap_or(0)) as usize;
+            if fw.stalled {
+                r.violation = Some(Violation::new("formatter_stalls", format!("the writer was called {} times for {} entries: the formatter repeats or never finishes", fw.calls, order.len())));
+            } else if !parses(&fw.received, &recs, 0, 0, torn, &mut std::collections::HashSet::new()) {
+                let want: usize = recs.iter().map(|r| r.len()).sum();
+                r.violation = Some(Violation::new(
+                    "pipeline_bytes_torn_or_duplicated",
+                    format!("the writer behind sink -> tee -> Emf received {} bytes that are not the records of the {} entries in delivery order ({} bytes), with at most {torn} torn records allowed by the hard / zero-length faults that fired; tail: {:?}", fw.received.len(), order.len(), want, String::from_utf8_lossy(&fw.received[fw.received.len().saturating_sub(120)..])),
+                ));
+            }
+        }
+        r.sample = Some(json!({"kind": plan.get("kind"), "faults": plan.get("faults"), "bytes": fw.received.len(), "write_calls": fw.calls, "history": history_json(&h, 30)}));
+        if r.violation.is_none() {
+            match failure {
+                None => {}
+                Some(f @ detsim::Failure::Deadlock { .. }) => r.violation = Some(Violation::new("deadlock", format!("{f:?}"))),
+                Some(detsim::Failure::StepLimit { .. }) => r.inconclusive = true,
+                Some(f) => r.harness_error = Some(format!("simulation failed: {f:?}")),
+            }
+            if let Some(p) = mp {
+                if r.violation.is_none() {
+                    r.harness_error = Some(format!("harness main panicked: {p}"));
+                }
+            }
+        }
+        r
+    }
+    fn probes(&self) -> Vec<&'static str> {
+        vec!["pipeline_queue", "pipeline_immediate"]
+    }
+    fn components(&self) -> J {
+        json!({"real": ["BackgroundQueue / boxed FlushImmediately", "stream::Tee", "FormatExt::output_to (FormattedEntryIoStream)", "Emf (two dimension sets), write_all_vectored"], "simulated_seams": ["thread, Parker, Instant (queue)", "io::Write (fault-scripted, shared, a scheduling point per write call)"], "harness": ["recording stream as the second tee leg", "reference Emf for the expected records"], "stub": []})
+    }
+    fn rule(&self) -> &'static str {
+        "each run: 1-3 threads append 1-7 id-carrying entries each to a BackgroundQueue or a boxed FlushImmediately whose stream is tee(Emf.output_to(fault-scripted writer), recording stream); writer script: chunk size 0/1/5/64, vectored or not, 0-4 faults (hard error of three kinds, zero-length write, short write, Interrupted) at seeded call indices; oracle: the recording leg sees every entry once in order, and the writer's bytes parse as the entries' reference records in delivery order with at most one torn (proper-prefix) record per hard / zero-length fault that fired, nothing duplicated or omitted. non-trivial / distinct as sink_faults"
     }
 }
 
